@@ -261,3 +261,85 @@ func VerifC04SigningKeyPath() {
 	rt.Reach("derived")
 	rt.Reach("end")
 }
+
+// ---- restore scan ----
+
+// c12PathTag: a 33-byte key that looks like a compressed public key and carries the last eight derivation indexes.
+func c12PathChild(tag []byte, i uint32) []byte {
+	t := make([]byte, 33)
+	t[0] = 2
+	copy(t[1:], tag[5:33])
+	binary.BigEndian.PutUint32(t[29:], i)
+	return t
+}
+
+// VerifC12RestoreScan: the real createManagerKeyScope (what a mnemonic restore runs) against a chain oracle in
+// which the external addresses 0..5 are used or not - arbitrarily, but in a way the issuing rule allows (an
+// address at index i >= G was only ever issued if one of the G addresses before it was used). With any index
+// hint, the restored wallet's next external index is beyond every used address, and the public key of every
+// address up to there is stored: the restore finds every address that ever received funds.
+func VerifC12RestoreScan() {
+	G := uint32(rt.NondetLen(2, 3))
+	const K = 6
+	var used [K]bool
+	last := -1
+	for i := 0; i < K; i++ {
+		used[i] = rt.NondetBool()
+		if used[i] {
+			// issuable: i < G, or a used address among the G before it
+			ok := uint32(i) < G
+			for j := i - 1; j >= 0 && j >= i-int(G); j-- {
+				if used[j] {
+					ok = true
+				}
+			}
+			rt.Assume(ok)
+			last = i
+		}
+	}
+	hint := uint32(rt.NondetLen(1, 2)) // the external scan runs for a non-zero hint (the importer passes >= 1)
+	db := mdb.New()
+	km := db.Top("km")
+	hdkeychain.VerifChildStub = func(k *hdkeychain.ExtendedKey, i uint32) (*hdkeychain.ExtendedKey, error) {
+		return hdkeychain.VerifOpaqueKey(c12PathChild(k.VerifTag(), i), k.IsPrivate()), nil
+	}
+	hdkeychain.VerifNeuterStub = func(k *hdkeychain.ExtendedKey) (*hdkeychain.ExtendedKey, error) {
+		return hdkeychain.VerifOpaqueKey(k.VerifTag(), false), nil
+	}
+	root := hdkeychain.VerifOpaqueKey(append([]byte{2}, make([]byte, 32)...), true)
+	check := func(sh []byte) (bool, error) {
+		// script hash = 0xee || tag: the last two indexes of the path are branch and address index
+		branch := binary.BigEndian.Uint32(sh[1+25 : 1+29])
+		idx := binary.BigEndian.Uint32(sh[1+29 : 1+33])
+		if branch != ExternalBranch || idx >= K {
+			return false, nil
+		}
+		return used[idx], nil
+	}
+	path := &hdPath{Account: 0, ExternalChildNum: hint, InternalChildNum: 0}
+	var meta mwdb.BucketMeta
+	err := mwdb.Update(db, func(tx mwdb.DBTransaction) error {
+		b := tx.TopLevelBucket("km")
+		var e error
+		meta, e = createManagerKeyScope(b, root, c12Enc{}, c12Enc{}, path, check, config.ChainParams, G)
+		return e
+	})
+	if err != nil {
+		rt.Reach("unusable") // the curve rejects the derived account key (uninterpreted)
+		rt.Reach("end")
+		return
+	}
+	var acct *mdb.Bucket
+	for _, name := range []string{meta.Name()} {
+		acct = km.Sub(name)
+	}
+	next := binary.LittleEndian.Uint32(acct.Lookup(externalChildNumName))
+	want := hint
+	if uint32(last+1) > want {
+		want = uint32(last + 1)
+	}
+	rt.Assert(next >= uint32(last+1), "restored-next-index-is-beyond-every-used-address")
+	rt.Assert(next == want, "restored-next-index-is-exactly-last-used-plus-one-or-the-hint")
+	rt.Reach("restored")
+	rt.Reach("end")
+}
